@@ -199,6 +199,7 @@ func C02(tier string) int {
 	}
 	close(jobs)
 	wg.Wait()
+	boundaryPass(rep, "C02", false, true, false)
 	rep.Set("evaluations", rep.Get("evaluations"))
 	rep.Set("distinct_nontrivial", int(rep.Get("compared_pairs")))
 	return rep.Finish()
